@@ -12,6 +12,13 @@ if TYPE_CHECKING:
 DEFAULT_WORK_START_HOUR = 9
 DEFAULT_WORK_END_HOUR = 17  # 5pm, so hours 9,10,11,12,13,14,15,16 are working (8 hours)
 
+# Efforts are accumulated as floating-point hours. Compare them with a tolerance far below
+# one second so that rounding noise neither books a further slot nor leaves a sliver of a
+# slot behind that the next task would mistake for working time.
+EFFORT_EPSILON = 1e-7
+# Likewise a remainder of a slot below a millisecond is not handed back to the resource.
+SLOT_EPSILON_SECONDS = 1e-3
+
 
 class TaskScenario(ScenarioData):
     def __init__(self, task: "PropertyTreeNode", scenarioIdx: int, attributes: dict[str, Any]) -> None:
@@ -730,7 +737,7 @@ class TaskScenario(ScenarioData):
             effort_before = self.doneEffort
             self.bookResources()
 
-            if self.doneEffort >= effort:
+            if self.doneEffort >= effort - EFFORT_EPSILON:
                 # Finished - calculate precise end time within the final slot
                 # and release unused time for other tasks
                 end_date, _seconds_used = self._calculatePreciseEndTimeAndRelease(effort, effort_before, forward)
@@ -837,8 +844,11 @@ class TaskScenario(ScenarioData):
                     booked_seconds = secs
         seconds_before = max(0.0, slot_duration_seconds - booked_seconds)
 
-        # Clamp to what was booked (shouldn't exceed, but safety check)
-        seconds_into_slot = min(seconds_into_slot, booked_seconds)
+        # Clamp to what was booked (shouldn't exceed, but safety check); a remainder
+        # that is only floating-point noise counts as used
+        seconds_into_slot = max(0.0, min(seconds_into_slot, booked_seconds))
+        if booked_seconds - seconds_into_slot < SLOT_EPSILON_SECONDS:
+            seconds_into_slot = booked_seconds
 
         # Calculate the precise end time, rounded to nearest second
         # (Gold standard uses second-level precision)
